@@ -131,9 +131,9 @@ package proxy
 //@ func newHTTPProxy$1
 //@   props C07
 //@   requires req != nil && req.URL != nil && target != nil && req.Header != nil
-//@   assigns req.URL.Scheme, req.URL.Host, req.URL.Path, req.URL.RawQuery, mapsOf(map[string][]string), elems(string), hdr1, hdrHas
+//@   assigns req.URL.Scheme, req.URL.Host, req.URL.Path, req.URL.RawPath, req.URL.RawQuery, mapsOf(map[string][]string), elems(string), hdr1, hdrHas
 //@   ensures nopanic
-//@   ensures req.URL.Scheme == target.Scheme && req.URL.Host == target.Host && req.URL.Path == target.Path && req.URL.RawQuery == target.RawQuery
+//@   ensures req.URL.Scheme == target.Scheme && req.URL.Host == target.Host && req.URL.Path == target.Path && req.URL.RawPath == target.RawPath && req.URL.RawQuery == target.RawQuery
 //@
 //@ // path handed to the upstream: strip removed (result made absolute), then prepend added (result made absolute)
 //@ spec fun absP(p string) string = hasPrefix(p, "/") ? p : "/" + p
